@@ -42,6 +42,8 @@ func checkC17(c *Ctx) {
 	// later call return an earlier call's result)
 	c17Stateless(c)
 	c17ForeignText(c)
+	c17HexBytesE1(c)
+	c17EnvelopeE1(c)
 }
 
 func c17Stateless(c *Ctx) {
@@ -176,7 +178,7 @@ func Half(f float64) int  { return int(f*100 + 0.5) }
 
 func c17Rounded(c *Ctx) {
 	const rule = "R1.rounded"
-	c.Run.Rule(rule, "every float→integer conversion in an Unmarshal* method of package backend takes its operand from math.Round (or x+0.5 / math.Floor(x+0.5)); truncation of f*k loses e.g. 0.29*100 → 28")
+	c.Run.Rule(rule, "every float→integer conversion in an Unmarshal* method of package backend (or a function of the package it calls) takes its operand from math.Round (or x+0.5 / math.Floor(x+0.5)); truncation of f*k loses e.g. 0.29*100 → 28")
 	sp := c.Prog.SSAPkg("backend")
 	if sp == nil {
 		c.Run.Unknown(rule, "backend", "", "package backend loaded", "missing")
@@ -186,8 +188,32 @@ func c17Rounded(c *Ctx) {
 	for _, fn := range fns {
 		c.Run.Saw("functions scanned for float→int conversions", fnKey(fn))
 	}
+	// the decode direction: Unmarshal* methods and the package's own functions they (transitively) call
+	decode := map[*ssa.Function]bool{}
+	var mark func(f *ssa.Function)
+	mark = func(f *ssa.Function) {
+		if f == nil || decode[f] || f.Pkg != sp || f.Blocks == nil {
+			return
+		}
+		decode[f] = true
+		for _, b := range f.Blocks {
+			for _, ins := range b.Instrs {
+				if ci, ok := ins.(ssa.CallInstruction); ok {
+					mark(ci.Common().StaticCallee())
+				}
+			}
+		}
+		for _, an := range f.AnonFuncs {
+			mark(an)
+		}
+	}
+	for _, fn := range fns {
+		if strings.HasPrefix(fn.Name(), "Unmarshal") {
+			mark(fn)
+		}
+	}
 	for _, f := range floatToInt(fns) {
-		if !strings.HasPrefix(f.Fn.Name(), "Unmarshal") {
+		if !decode[f.Fn] {
 			// only the decode direction is an obligation of C17; other conversions are listed
 			c.Run.Saw("float→int conversions outside Unmarshal* (not an obligation)", fnKey(f.Fn)+": "+f.Operand.String())
 			continue
@@ -225,37 +251,40 @@ func c17Pairs(c *Ctx) {
 	c.Run.Rule(rule, "marshal/unmarshal siblings agree: hex both ways, one time layout (RFC 3339), one scaling constant (1e6 Hz/MHz, 100 %), float64 handed to encoding/json or FormatFloat(-1), ParseFloat bit size 64")
 	const bk = "lorawan/backend."
 
-	// --- HEXBytes
+	// --- HEXBytes (shape rule; the clause itself is decided exactly by R7.hexbytes, so an unrecognised shape is only a note)
+	const hexRule = "R2.hex-shape"
+	c.Run.Rule(hexRule, "HEXBytes: String/MarshalText = hex.EncodeToString(hb); UnmarshalText stores hex.DecodeString(strings.TrimPrefix(text, \"0x\")) on success only (shape; advisory, backed by R7.hexbytes)")
+	c.Run.Advisory(hexRule, "R7.hexbytes")
 	strWant := flow.Call("encoding/hex.EncodeToString", flow.SliceOf(flow.Param(0), nil, nil))
 	strOK := false
-	if fn := flowFn(c, rule, "backend", "HEXBytes.String"); fn != nil {
+	if fn := flowFn(c, hexRule, "backend", "HEXBytes.String"); fn != nil {
 		e := flow.For(fn)
 		for _, r := range flow.Returns(fn) {
-			strOK = checkTerm(c, rule, fnKey(fn)+"/result", ipos(c, r), "String()", e.Select(r.Results[0], nil, r), strWant)
+			strOK = checkTerm(c, hexRule, fnKey(fn)+"/result", ipos(c, r), "String()", e.Select(r.Results[0], nil, r), strWant)
 		}
 	}
-	if fn := flowFn(c, rule, "backend", "HEXBytes.MarshalText"); fn != nil {
+	if fn := flowFn(c, hexRule, "backend", "HEXBytes.MarshalText"); fn != nil {
 		e := flow.For(fn)
 		for _, r := range flow.Returns(fn) {
 			via := flow.Conv("[]byte", flow.Call("("+bk+"HEXBytes).String", flow.Param(0)))
 			got := e.Select(r.Results[0], nil, r)
 			if got.Equal(via) && !strOK {
-				c.Run.Unknown(rule, fnKey(fn)+"/result", ipos(c, r), "MarshalText = []byte(hex.EncodeToString(hb))", "goes through String(), which did not match")
+				c.Run.Unknown(hexRule, fnKey(fn)+"/result", ipos(c, r), "MarshalText = []byte(hex.EncodeToString(hb))", "goes through String(), which did not match")
 			} else {
-				checkTerm(c, rule, fnKey(fn)+"/result", ipos(c, r), "MarshalText", got, via, flow.Conv("[]byte", strWant))
+				checkTerm(c, hexRule, fnKey(fn)+"/result", ipos(c, r), "MarshalText", got, via, flow.Conv("[]byte", strWant))
 			}
 		}
 	}
-	if fn := flowFn(c, rule, "backend", "HEXBytes.UnmarshalText"); fn != nil {
+	if fn := flowFn(c, hexRule, "backend", "HEXBytes.UnmarshalText"); fn != nil {
 		key := fnKey(fn)
 		e := flow.For(fn)
 		in := flow.Call("strings.TrimPrefix", flow.Conv("string", flow.Param(1)), flow.ConstString("0x"))
 		dec := flow.Call("encoding/hex.DecodeString", in)
-		if s, ok := oneSite(c, rule, key+"/call:hex.DecodeString", fn, "encoding/hex.DecodeString"); ok {
-			checkTerm(c, rule, key+"/input", ipos(c, s.Instr), "input of hex.DecodeString", s.Args[0], in, flow.Call("encoding/hex.DecodeString", flow.Conv("string", flow.Param(1))).Args[0])
-			successStores(c, rule, fn, flow.Extract(dec, 0), flow.Extract(dec, 1))
+		if s, ok := oneSite(c, hexRule, key+"/call:hex.DecodeString", fn, "encoding/hex.DecodeString"); ok {
+			checkTerm(c, hexRule, key+"/input", ipos(c, s.Instr), "input of hex.DecodeString", s.Args[0], in, flow.Call("encoding/hex.DecodeString", flow.Conv("string", flow.Param(1))).Args[0])
+			successStores(c, hexRule, fn, flow.Extract(dec, 0), flow.Extract(dec, 1))
 		}
-		errSwallowRule(c, rule, fn)
+		errSwallowRule(c, hexRule, fn)
 		_ = e
 	}
 
@@ -265,25 +294,68 @@ func c17Pairs(c *Ctx) {
 	if fn := flowFn(c, rule, "backend", "ISO8601Time.MarshalText"); fn != nil {
 		key := fnKey(fn)
 		e := flow.For(fn)
-		if s, ok := oneSite(c, rule, key+"/call:Time.Format", fn, "(time.Time).Format"); ok {
+		sites := flow.Calls(fn, flow.Named("(time.Time).Format"))
+		switch {
+		case len(sites) == 1:
+			s := sites[0]
 			checkTerm(c, rule, key+"/receiver", ipos(c, s.Instr), "formatted time", s.Args[0], flow.Param(0))
 			layoutM = s.Args[1]
 			checkTerm(c, rule, key+"/layout", ipos(c, s.Instr), "layout (ISO 8601 to one second)", s.Args[1], flow.ConstString(rfc3339))
 			for _, r := range flow.Returns(fn) {
 				checkTerm(c, rule, key+"/result", ipos(c, r), "MarshalText", e.Select(r.Results[0], nil, r), flow.Conv("[]byte", e.Term(s.Value())))
 			}
+		case len(sites) == 0:
+			// no direct call: the returned text as a term with helpers unfolded must contain exactly one Format call
+			for _, r := range flow.Returns(fn) {
+				t := e.Select(r.Results[0], nil, r)
+				fcs := findCallTerms(t, "(time.Time).Format")
+				if len(fcs) != 1 || len(fcs[0].Args) != 2 {
+					c.Run.Unknown(rule, key+"/call:Time.Format", ipos(c, r), "the returned text is built by one call of (time.Time).Format", short(t.String()))
+					continue
+				}
+				fc := fcs[0]
+				checkTerm(c, rule, key+"/receiver", ipos(c, r), "formatted time", fc.Args[0], flow.Param(0))
+				layoutM = fc.Args[1]
+				checkTerm(c, rule, key+"/layout", ipos(c, r), "layout (ISO 8601 to one second)", fc.Args[1], flow.ConstString(rfc3339))
+				checkTerm(c, rule, key+"/result", ipos(c, r), "MarshalText", t, flow.Conv("[]byte", fc))
+			}
+		default:
+			c.Run.Unknown(rule, key+"/call:Time.Format", fpos(c, fn), "one call of (time.Time).Format", fmt.Sprintf("%d calls", len(sites)))
 		}
 	}
 	if fn := flowFn(c, rule, "backend", "ISO8601Time.UnmarshalText"); fn != nil {
 		key := fnKey(fn)
 		e := flow.For(fn)
-		if s, ok := oneSite(c, rule, key+"/call:time.Parse", fn, "time.Parse"); ok {
-			layoutU = s.Args[0]
-			checkTerm(c, rule, key+"/input", ipos(c, s.Instr), "parsed text", s.Args[1], flow.Conv("string", flow.Param(1)))
-			if layoutM != nil {
-				checkTerm(c, rule, "backend.ISO8601Time/same-layout", ipos(c, s.Instr), "layout of time.Parse (the one used by Format)", layoutU, layoutM)
+		sites := flow.Calls(fn, flow.Named("time.Parse"))
+		var pt *flow.Term
+		pos := fpos(c, fn)
+		switch {
+		case len(sites) == 1:
+			pt = e.Term(sites[0].Value())
+			pos = ipos(c, sites[0].Instr)
+			pt = flow.Call("time.Parse", sites[0].Args[0], sites[0].Args[1])
+		case len(sites) == 0:
+			// no direct call: the value stored on success, helpers unfolded, must come from exactly one time.Parse
+			for _, r := range flow.Returns(fn) {
+				if !mayReturnNil(e, r, errIndex(fn)) {
+					continue
+				}
+				got := e.SelectAddr(fn.Params[0], nil, r)
+				if pcs := findCallTerms(got, "time.Parse"); len(pcs) == 1 && len(pcs[0].Args) == 2 {
+					pt = pcs[0]
+				} else {
+					c.Run.Unknown(rule, key+"/call:time.Parse", ipos(c, r), "the stored time comes from one call of time.Parse", short(got.String()))
+				}
 			}
-			pt := e.Term(s.Value())
+		default:
+			c.Run.Unknown(rule, key+"/call:time.Parse", fpos(c, fn), "one call of time.Parse", fmt.Sprintf("%d calls", len(sites)))
+		}
+		if pt != nil {
+			layoutU = pt.Args[0]
+			checkTerm(c, rule, key+"/input", pos, "parsed text", pt.Args[1], flow.Conv("string", flow.Param(1)))
+			if layoutM != nil {
+				checkTerm(c, rule, "backend.ISO8601Time/same-layout", pos, "layout of time.Parse (the one used by Format)", layoutU, layoutM)
+			}
 			successStores(c, rule, fn, flow.Extract(pt, 0), flow.Extract(pt, 1))
 		}
 		errSwallowRule(c, rule, fn)
@@ -448,6 +520,27 @@ func c17Pairs(c *Ctx) {
 	}
 }
 
+// findCallTerms lists the distinct call sub-terms of t with the given callee name.
+func findCallTerms(t *flow.Term, name string) []*flow.Term {
+	var out []*flow.Term
+	seen := map[string]bool{}
+	var walk func(x *flow.Term)
+	walk = func(x *flow.Term) {
+		if x == nil {
+			return
+		}
+		if x.Op == "call" && x.Val == name && !seen[x.String()] {
+			seen[x.String()] = true
+			out = append(out, x)
+		}
+		for _, a := range x.Args {
+			walk(a)
+		}
+	}
+	walk(t)
+	return out
+}
+
 // successStores: every return that may carry a nil error lies behind errT == nil and sees the receiver
 // holding val.
 func successStores(c *Ctx, rule string, fn *ssa.Function, val, errT *flow.Term) {
@@ -459,7 +552,7 @@ func successStores(c *Ctx, rule string, fn *ssa.Function, val, errT *flow.Term) 
 		}
 		n++
 		rk := fmt.Sprintf("%s/success#%d", fnKey(fn), n)
-		pc := e.PathCond(r.Block(), nil)
+		pc := e.PathCondS(r.Block())
 		if !flow.Implies(pc, flow.Eq(errT, flow.Nil())) {
 			c.Run.Bad(rule, rk+"/after-success", ipos(c, r), "a nil error is returned only when "+errT.String()+" == nil", short(pc.Pretty()))
 			continue
@@ -638,7 +731,8 @@ func c17HasMethod(t types.Type, name string) bool {
 
 func c17Envelope(c *Ctx) {
 	const rule = "R4.envelope"
-	c.Run.Rule(rule, "NewKeyEnvelope: clear key iff kekLabel == \"\" || len(kek) == 0, else keywrap.Wrap(aes.NewCipher(kek), key) with the label; Unwrap: keywrap.Unwrap with the same cipher construction, its error is returned")
+	c.Run.Advisory(rule, "R8.envelope")
+	c.Run.Rule(rule, "(shape; advisory, backed by R8.envelope) NewKeyEnvelope: clear key iff kekLabel == \"\" || len(kek) == 0, else keywrap.Wrap(aes.NewCipher(kek), key) with the label; Unwrap: keywrap.Unwrap with the same cipher construction, its error is returned")
 	block := func(kek *flow.Term) *flow.Term { return flow.Extract(flow.Call("crypto/aes.NewCipher", kek), 0) }
 
 	if fn := flowFn(c, rule, "backend", "NewKeyEnvelope"); fn != nil {
